@@ -175,6 +175,10 @@ def audit(P, ta, order, fails, op, ns=None, light=False):
     ns = ns or ta.taxon_namespace
     bits = Q.bit_table(ns)
     L, r = P.L, P.r
+    # an entry >= 100 is pool tree (entry - 100) accessioned through a text source, which
+    # does not carry the tree weight
+    ws = [None if e >= 100 else P.weights[e] for e in order]
+    order = [e % 100 for e in order]
     n = len(order)
     ign_len = bool(P.settings.get("ignore_edge_lengths", False))
     ages_on = not P.settings.get("ignore_node_ages", True)
@@ -195,7 +199,6 @@ def audit(P, ta, order, fails, op, ns=None, light=False):
             bad("len", "len() = %d for %d trees" % (len(ta), n))
     except Exception as ex:
         bad("query[len]", "%s: %s" % (type(ex).__name__, ex))
-    ws = [P.weights[i] for i in order]
     if aligned:
         all_mask = 0
         for lab in L:
@@ -397,24 +400,25 @@ def _history(case):
                 blk = op[1]
                 sub = P.build_block(blk)
                 pre = []
-                audit(P, sub, list(blk["trees"]), pre, "block", light=True)
+                ent = [i + 100 for i in blk["trees"]] if blk["how"].startswith("read") else list(blk["trees"])
+                audit(P, sub, ent, pre, "block", light=True)
                 if pre:  # the sub-collection itself is already wrong (single-collection clauses)
                     fails.extend(pre)
                 if name == "update":
                     master.update(sub)
-                    order.extend(blk["trees"])
+                    order.extend(ent)
                 elif name == "extend":
                     master.extend(sub)
-                    order.extend(blk["trees"])
+                    order.extend(ent)
                 elif name == "iadd":
                     master += sub
-                    order.extend(blk["trees"])
+                    order.extend(ent)
                 elif name == "add":
                     master = master + sub
-                    order.extend(blk["trees"])
+                    order.extend(ent)
                 elif name == "radd":
                     master = sub + master
-                    order = list(blk["trees"]) + order
+                    order = ent + order
                 else:
                     raise ValueError(name)
         except Timeout:
@@ -550,13 +554,13 @@ def _sumtrees_sched(case):
         finally:
             sumtrees.multiprocessing, sumtrees.TreeAnalysisWorker.start, sumtrees.TreeAnalysisWorker.terminate = saved
         if master is not None:
-            order = [i for f in sched.order_of_files for i in files[f]]
+            order = [i + 100 for f in sched.order_of_files for i in files[f]]
             audit(P, master, order, fails, "sumtrees.collation", ns=master.taxon_namespace)
             # ... and against the serial run of the same program
             tp1 = sumtrees.TreeProcessor(num_processes=1, **kw)
             ser = tp1.serial_analyze_trees(tree_sources=paths, schema="newick", taxon_namespace=K.make_namespace(LABELS))
             sfails = []
-            audit(P, ser, [i for idxs in files for i in idxs], sfails, "sumtrees.serial", ns=ser.taxon_namespace)
+            audit(P, ser, [i + 100 for idxs in files for i in idxs], sfails, "sumtrees.serial", ns=ser.taxon_namespace)
             fails.extend(sfails)
             if not fails and not sfails:
                 a = sorted((Q.split_key(Q.decode(m, Q.bit_table(master.taxon_namespace), P.L, P.r), P.r), f)
@@ -735,7 +739,7 @@ def _configs(quick):
     """(rooted, pool, weights, settings, masters)"""
     cf = [
         (False, "plain", "none", {}),
-        (True, "plain", "none", {}),
+        (True, "plain", "mixed", {}),  # tree weights {None,2,1/2,1,2}; text sources do not carry them
         (True, "ultra", "none", {"ignore_node_ages": False}),
     ]
     return cf
@@ -763,8 +767,6 @@ def gen_random_histories(rng, count, alphabet, scope, lmin, lmax):
     while n < count:
         rooted, pool, wts, st = cfs[rng.randrange(len(cfs))]
         combo = [alphabet[rng.randrange(len(alphabet))] for _ in range(rng.randint(lmin, lmax))]
-        if wts == "mixed":  # weights are not written to the text sources
-            combo = [c for c in combo if not (c[0] == "merge" and c[2].startswith("read"))]
         if rooted is None:  # undefined rooting cannot be written as a token or forced
             combo = [c for c in combo if not (c[0] == "merge" and c[2] in ("read", "read-forced", "explicit"))]
         ops = _instantiate(combo)
@@ -881,7 +883,7 @@ def t2(ctx):
         "every sequence of <=%d operations from {add_tree, append, insert@0/mid/-1} + {update, extend, +=, +, reversed +} x "
         "sub-collection built by {add_tree, explicit is_rooted_trees, from_tree_list, read [&R]/[&U], read forced rooting} x "
         "block size {0,1,2} (%d operations), pool trees consumed in order, x master {implicit, explicit rooting} x "
-        "{unrooted, rooted, rooted ultrametric with node ages}; audited after every step; non-trivial = >=2 ops with a merge"
+        "{unrooted, rooted with tree weights, rooted ultrametric with node ages}; audited after every step; non-trivial = >=2 ops with a merge"
         % (L, len(alpha)), True, gen_histories(L, alpha, "histories<=%d" % L, _configs(quick)))
     if not quick:
         small = [a for a in alpha if (a[0] == "single" and a[1] in (["add_tree"], ["insert", "0"]))
